@@ -215,3 +215,40 @@ pub fn run<T: Send + 'static>(f: impl FnOnce() -> T + Send + 'static, hard_limit
         }
     }
 }
+
+/// Run `f` on the *calling* thread (for values that are not Send) while a
+/// monitor thread applies the same structural oracle to it.  If the calling
+/// thread is found in a wait-for cycle the children are killed (so that `f`
+/// returns) and the description of the cycle is returned with the result.
+pub fn guard<T>(f: impl FnOnce() -> T) -> (T, Option<String>) {
+    use std::sync::atomic::{AtomicBool, Ordering::SeqCst};
+    use std::sync::{Arc, Mutex};
+    let tid = unsafe { libc::syscall(libc::SYS_gettid) as i32 };
+    let stop = Arc::new(AtomicBool::new(false));
+    let found: Arc<Mutex<Option<String>>> = Arc::new(Mutex::new(None));
+    let (s2, f2) = (stop.clone(), found.clone());
+    let mon = std::thread::spawn(move || {
+        let t0 = ip::real_now_ns();
+        while !s2.load(SeqCst) {
+            ip::real_sleep_ms(20);
+            if (ip::real_now_ns() - t0) / 1_000_000 < 150 {
+                continue;
+            }
+            if let Ok(Some(desc)) = inspect(tid) {
+                *f2.lock().unwrap() = Some(desc);
+                // keep killing until the guarded call is over (it may start more children)
+                while !s2.load(SeqCst) {
+                    kill_children();
+                    ip::real_sleep_ms(10);
+                }
+                return;
+            }
+            ip::real_sleep_ms(80);
+        }
+    });
+    let r = f();
+    stop.store(true, SeqCst);
+    let _ = mon.join();
+    let d = found.lock().unwrap().take();
+    (r, d)
+}
